@@ -17,7 +17,7 @@ BASES = [
     dict(D=1, target="abs", box="log", noise="auto", sigma=0.2, options=dict(max_fun_evals=40, noise_final_samples=2)),
     dict(D=2, target="sphere", box="sym", noise="declared", sigma=0.3, cons="ball", options=dict(max_fun_evals=40, noise_final_samples=1)),
 ]
-KINDS_ALL = ["raise", "raise_key", "raise_stop", "raise_index", "nan", "inf", "ninf", "complex", "vector", "none", "complex0", "npcomplex", "npcomplex0", "npnan", "vlist"]
+KINDS_ALL = ["raise", "raise_key", "raise_stop", "raise_index", "raise_noargs", "raise_valsub", "nan", "inf", "ninf", "complex", "vector", "none", "complex0", "npcomplex", "npcomplex0", "npnan", "vlist"]
 KINDS_HE = ["notpair", "sd_zero", "sd_neg", "sd_nan", "sd_inf", "sd_none", "sd_complex0"]
 
 
